@@ -97,6 +97,8 @@ pub fn handle(op: &str, cmd: &Value) -> Value {
                 ok &= id == *p;
                 if *p == n { n += 1; }
             }
+            // the announced id after the last step too (a re-registration as the last step must not move it)
+            ok &= b.next_type_id() as u64 == n;
             for i in 0..n { ok &= b.get(i as u32).map(ty_index) == Some(val(i)); }
             ok &= b.get(n as u32).is_none();
             let r = b.finish();
